@@ -131,6 +131,73 @@ theorem C06_ibc_sum (denom : Denom) (F : Nat) (dev : Option Addr) :
   | none => simp [ibcDenomFairBurn, sumAmounts, Msg.amount]
   | some d => simp [ibcDenomFairBurn, sumAmounts, Msg.amount, C06_bridge_half_ceil]; omega
 
+/-! ## The callers (which minter passes which flag and developer)
+
+`mintFeeMsgs k price b dev` is what one public mint on minter kind `k` emits for the network fee (`Model/Sg1.lean`; validated
+against real minters of all nine priced kinds created through their factories: `mintfee` lines of the harness). -/
+
+/-- "one eighth for featured minters": the three featured minters, no developer -/
+theorem C06_caller_featured (k price b : Nat) (dev : Addr) (hk : callerFeatured k = true) (hf : mulFloor price (bps b) ≠ 0) :
+    mintFeeMsgs k price b dev =
+      let F := mulFloor price (bps b)
+      [ Msg.send LIQUIDITY_DAO ⟨NATIVE, (F + 7) / 8⟩, Msg.send LAUNCHPAD_DAO ⟨NATIVE, F - (F + 7) / 8⟩ ] := by
+  have hd : callerHasDev k = false := by
+    unfold callerFeatured at hk; unfold callerHasDev
+    simp only [Bool.or_eq_true, beq_iff_eq] at hk
+    rcases hk with (h | h) | h <;> subst h <;> rfl
+  unfold mintFeeMsgs
+  simp only [hf, if_false, hk, hd, Bool.false_eq_true]
+  rw [C06_distribute_nodev]; simp [liqDen]
+
+/-- the three plain vending minters: one fifth, no developer -/
+theorem C06_caller_plain (k price b : Nat) (dev : Addr) (hk : callerFeatured k = false) (hd : callerHasDev k = false)
+    (hf : mulFloor price (bps b) ≠ 0) :
+    mintFeeMsgs k price b dev =
+      let F := mulFloor price (bps b)
+      [ Msg.send LIQUIDITY_DAO ⟨NATIVE, (F + 4) / 5⟩, Msg.send LAUNCHPAD_DAO ⟨NATIVE, F - (F + 4) / 5⟩ ] := by
+  unfold mintFeeMsgs
+  simp only [hf, if_false, hk, hd, Bool.false_eq_true]
+  rw [C06_distribute_nodev]; simp [liqDen]
+
+/-- the three open-edition minters: developer half first, then one fifth -/
+theorem C06_caller_open_edition (k price b : Nat) (dev : Addr) (hd : callerHasDev k = true) (hf : mulFloor price (bps b) ≠ 0) :
+    mintFeeMsgs k price b dev =
+      let F := mulFloor price (bps b)
+      let devFee := (F + 1) / 2
+      let rest := F - devFee
+      [ Msg.send dev ⟨NATIVE, devFee⟩, Msg.send LIQUIDITY_DAO ⟨NATIVE, (rest + 4) / 5⟩, Msg.send LAUNCHPAD_DAO ⟨NATIVE, rest - (rest + 4) / 5⟩ ] := by
+  have hk : callerFeatured k = false := by
+    unfold callerHasDev at hd; unfold callerFeatured
+    simp only [Bool.or_eq_true, beq_iff_eq] at hd
+    rcases hd with (h | h) | h <;> subst h <;> rfl
+  unfold mintFeeMsgs
+  simp only [hf, if_false, hk, hd, if_true]
+  rw [C06_distribute_dev]; simp [liqDen]
+
+/-- whatever the caller: the parts of a mint's network fee sum to it, none exceeds it, nothing is burned, and the fee never
+exceeds the price (bps ≤ 10000) -/
+theorem C06_caller_sum (k price b : Nat) (dev : Addr) :
+    sumAmounts (mintFeeMsgs k price b dev) = mulFloor price (bps b) ∧
+    (∀ m ∈ mintFeeMsgs k price b dev, m.amount ≤ mulFloor price (bps b) ∧ m.denom = NATIVE) ∧
+    (b ≤ 10000 → mulFloor price (bps b) ≤ price) := by
+  refine ⟨?_, ?_, ?_⟩
+  · show sumAmounts (if mulFloor price (bps b) = 0 then [] else _) = _
+    by_cases h : mulFloor price (bps b) = 0
+    · rw [if_pos h, h]; rfl
+    · rw [if_neg h]; exact (C06_distribute_sum NATIVE _ _ _).1
+  · show ∀ m ∈ (if mulFloor price (bps b) = 0 then [] else _), _
+    by_cases h : mulFloor price (bps b) = 0
+    · rw [if_pos h]; intro m hm; cases hm
+    · rw [if_neg h]; exact (C06_distribute_sum NATIVE _ _ _).2
+  · intro hb; unfold mulFloor bps
+    have : price * (b * 10 ^ 14) ≤ price * 10 ^ 18 := Nat.mul_le_mul_left _ (by omega)
+    exact Nat.div_le_of_le_mul (by rw [Nat.mul_comm (10 ^ 18)]; exact this)
+
+example : mintFeeMsgs 1 100000030 1000 55 = [Msg.send LIQUIDITY_DAO ⟨0, 1250001⟩, Msg.send LAUNCHPAD_DAO ⟨0, 8750002⟩] := by decide
+example : mintFeeMsgs 6 100000030 1000 55 =
+    [Msg.send 55 ⟨0, 5000002⟩, Msg.send LIQUIDITY_DAO ⟨0, 1000001⟩, Msg.send LAUNCHPAD_DAO ⟨0, 4000000⟩] := by decide
+
+
 /-! ## Non-vacuity -/
 example : fairBurn 9 9 none = [Msg.burn ⟨0, 4⟩, Msg.fundPool 9 ⟨0, 5⟩] := by decide
 example : mayPay [⟨NATIVE, 7⟩] NATIVE = .ok 7 ∧ (5 ≤ 7) ∧ (7 ≠ 0) := by simp [mayPay]
